@@ -175,6 +175,30 @@ MUTATORS = {'add', 'remove', 'discard', 'clear', 'update', 'append', 'extend', '
 FRESH_CTORS = {'dict', 'list', 'set', 'sorted', 'defaultdict', 'collections.defaultdict', 'sortedcontainers.SortedSet', 'SortedSet', 'sortedcontainers.SortedList', 'sortedcontainers.SortedDict', 'frozenset', 'tuple'}
 
 
+_NATIVE = {}
+
+
+def _native(name):
+    """result of contracts/native/<name> on the tree under test (run once per check)"""
+    if name not in _NATIVE:
+        _NATIVE[name] = core.run_native(open(os.path.join(os.path.dirname(__file__), 'native', name)).read(), {}, timeout=300)
+    return _NATIVE[name]
+
+
+def _add(ctx, o, script):
+    """add an obligation of the surroundings; when it fails, the native scenario host looks for a failing input on the real code
+    (a replayed input only ever strengthens the report: the verdict is the obligation's)"""
+    if o.backend == 'syntactic':
+        if o.status == 'failed':
+            r = _native(script)
+            if isinstance(r, dict) and r.get('confirmed'):
+                o.info['__replay__'] = r
+                o.detail = '%s | replayed on the real code: %s; input %s' % (o.detail, r.get('what'), r.get('input'))
+        ctx.add(o)
+    else:
+        ctx.add(o, replay=lambda model, obl: _native(script))
+
+
 def fn_ast():
     tree = pyast.parse(core.read_repo(POOL))
     for n in tree.body:
@@ -368,7 +392,7 @@ def working_state_obligations(ctx, fn):
         elif attr or not fresh_name(root):
             why = 'a parameter' if root in params else 'reached through an attribute' if attr else 'bound at %s' % ', '.join('L%d to `%s`' % (ln, pyast.unparse(v)[:60]) for k, v, ln in bindings.get(root, [])) if root in bindings else 'not a local of this call'
             notfresh.append('L%d: %s writes to %s, which is %s' % (line, txt, root, why))
-    ctx.add(core.decided('C11/working-state/every-container-the-computation-writes-is-created-by-this-call', not notfresh and not scope and bool(writes), '; '.join(notfresh + scope) or 'written: %s' % sorted({w[0] for w in writes}), kind='frame'))
+    _add(ctx, core.decided('C11/working-state/every-container-the-computation-writes-is-created-by-this-call', not notfresh and not scope and bool(writes), '; '.join(notfresh + scope) or 'written: %s' % sorted({w[0] for w in writes}), kind='frame'), 'c11_overlap_replay.py')
     ctx.add(core.decided('C11/working-state/nothing-is-stored-on-the-scheduler-object', not on_self, '; '.join(on_self), kind='frame'))
     seen = {w[0] for w in writes}
     sets = set(sorted_set_keys(fn)[0])
@@ -470,7 +494,7 @@ def query_obligations(ctx, fn):
     qargs = call.args[1] if len(call.args) > 1 else None
     args_ok = isinstance(qargs, (pyast.Tuple, pyast.List)) and [pyast.unparse(x) for x in qargs.elts] == ['self.pool.name'] and nparams == 1
     from_ok = isinstance(sel.from_, sqlast.TableRef) and sel.from_.name.lower() == TABLE and not sel.distinct
-    ctx.add(core.decided(P + 'reads-the-resource-rows-with-the-name-of-this-pool-as-the-only-argument', bool(args_ok and from_ok), 'FROM %s; arguments %s; %d placeholder(s)' % (sel.from_, pyast.unparse(qargs) if qargs is not None else None, nparams), kind='scan'))
+    _add(ctx, core.decided(P + 'reads-the-resource-rows-with-the-name-of-this-pool-as-the-only-argument', bool(args_ok and from_ok), 'FROM %s; arguments %s; %d placeholder(s)' % (sel.from_, pyast.unparse(qargs) if qargs is not None else None, nparams), kind='scan'), 'c11_query_replay.py')
     if not from_ok:
         raise core.Undecided('fair-share query reads from %s: not the single table the obligations are stated over' % (sel.from_,))
     ints = {c for c, d in tab.columns.items() if d.type.upper() in ('INT', 'BIGINT', 'SMALLINT', 'TINYINT', 'MEDIUMINT')}
@@ -497,18 +521,18 @@ def query_obligations(ctx, fn):
         if k != 'bool':
             raise core.Undecided('fair-share query: WHERE is not a condition')
     nullable = sorted(c for c in set(used) | {'user', 'inst_coll'} if tab.columns[c].nullable)
-    ctx.add(core.decided(P + 'columns-in-the-row-filter-are-not-null', not nullable, 'nullable: %s' % nullable, kind='scan'))
+    _add(ctx, core.decided(P + 'columns-in-the-row-filter-are-not-null', not nullable, 'nullable: %s' % nullable, kind='scan'), 'c11_query_replay.py')
     # (2) the row filter: exactly the rows of this pool - in particular EVERY token row of a user (a single token row holds
     # deltas and may be negative or zero; only the sum over the tokens is the user's figure), and no row of another pool
-    ctx.add(core.valid(P + 'row-filter-keeps-every-row-of-the-user-in-this-pool-so-each-sum-ranges-over-all-of-them', [pool_row], W, kind='vc', where=str(sel.where)))
-    ctx.add(core.valid(P + 'row-filter-keeps-only-rows-of-this-pool', [W], pool_row, kind='vc', where=str(sel.where)))
+    _add(ctx, core.valid(P + 'row-filter-keeps-every-row-of-the-user-in-this-pool-so-each-sum-ranges-over-all-of-them', [pool_row], W, kind='vc', where=str(sel.where)), 'c11_query_replay.py')
+    _add(ctx, core.valid(P + 'row-filter-keeps-only-rows-of-this-pool', [W], pool_row, kind='vc', where=str(sel.where)), 'c11_query_replay.py')
     ctx.add(core.satisfiable(P + 'vacuity/some-row-passes-the-row-filter', [W], kind='vacuity'))
     if sel.where is not None:
         ctx.add(core.satisfiable(P + 'canary/row-filter-lets-every-row-pass', [z3.Not(W)], kind='canary'))
     # (3) one row per user
     gk = [g.parts[-1].lower() if isinstance(g, sqlast.Name) else None for g in sel.group_by]
     one_row = 'user' in gk and all(g in ('user', 'inst_coll') for g in gk) and sel.limit is None and sel.offset is None
-    ctx.add(core.decided(P + 'one-row-per-user-and-no-user-cut-off', bool(one_row), 'GROUP BY %s LIMIT %s' % ([str(g) for g in sel.group_by], sel.limit), kind='scan'))
+    _add(ctx, core.decided(P + 'one-row-per-user-and-no-user-cut-off', bool(one_row), 'GROUP BY %s LIMIT %s' % ([str(g) for g in sel.group_by], sel.limit), kind='scan'), 'c11_query_replay.py')
     # (4) the columns
     read = sorted({n.slice.value for n in pyast.walk(fn) if isinstance(n, pyast.Subscript) and isinstance(n.ctx, pyast.Load) and isinstance(n.value, pyast.Name) and n.value.id == 'record'
                    and isinstance(n.slice, pyast.Constant) and isinstance(n.slice.value, str)} | {'user', 'running_cores_mcpu', 'ready_cores_mcpu'})
@@ -529,9 +553,9 @@ def query_obligations(ctx, fn):
                 wrong.append('user: %s' % e)
         elif _summed_column(e, True) != k or k not in ints:
             wrong.append('%s: %s' % (k, e))
-    ctx.add(core.decided(P + 'each-column-the-code-reads-is-the-integer-sum-of-that-column-over-the-user-s-rows', not wrong and not dup, '; '.join(wrong + dup) or 'read: %s' % read, kind='scan'))
+    _add(ctx, core.decided(P + 'each-column-the-code-reads-is-the-integer-sum-of-that-column-over-the-user-s-rows', not wrong and not dup, '; '.join(wrong + dup) or 'read: %s' % read, kind='scan'), 'c11_query_replay.py')
     misnamed = ['%s: %s' % (k, e) for k, e in cols.items() if k in ints and k not in read and _summed_column(e, False) != k]
-    ctx.add(core.decided(P + 'every-other-column-named-after-a-counter-is-the-sum-of-that-counter', not misnamed, '; '.join(misnamed), kind='scan'))
+    _add(ctx, core.decided(P + 'every-other-column-named-after-a-counter-is-the-sum-of-that-counter', not misnamed, '; '.join(misnamed), kind='scan'), 'c11_query_replay.py')
     # (5) which users are left out: decided on the aggregated sums only, and only users without ready demand
     agg = {k: _summed_column(e, False) for k, e in cols.items() if k != 'user'}
     H = z3.BoolVal(True)
@@ -562,11 +586,11 @@ def query_obligations(ctx, fn):
         k, H = _sql_term(sel.having, hcol, param, hterm)
         if k != 'bool':
             raise core.Undecided('fair-share query: HAVING is not a condition')
-    ctx.add(core.decided(P + 'users-are-filtered-on-their-aggregated-sums-only', not bad_h, '; '.join(bad_h) or 'HAVING %s' % sel.having, kind='scan'))
+    _add(ctx, core.decided(P + 'users-are-filtered-on-their-aggregated-sums-only', not bad_h, '; '.join(bad_h) or 'HAVING %s' % sel.having, kind='scan'), 'c11_query_replay.py')
     S = lambda c: hv.setdefault(c, z3.Int('sum.' + c))  # noqa: E731
     # what the counters are (C01 / C06): numbers of jobs and their cores; no ready jobs, no ready cores
     facts = [S('n_ready_jobs') >= 0, S('n_running_jobs') >= 0, S('ready_cores_mcpu') >= 0, S('running_cores_mcpu') >= 0, z3.Implies(S('n_ready_jobs') == 0, S('ready_cores_mcpu') == 0)]
-    ctx.add(core.valid(P + 'a-user-left-out-of-the-result-has-no-ready-demand', facts + [z3.Not(H)], S('ready_cores_mcpu') == 0, kind='vc', having=str(sel.having)))
+    _add(ctx, core.valid(P + 'a-user-left-out-of-the-result-has-no-ready-demand', facts + [z3.Not(H)], S('ready_cores_mcpu') == 0, kind='vc', having=str(sel.having)), 'c11_query_replay.py')
     ctx.add(core.satisfiable(P + 'vacuity/some-user-passes-the-filter-on-the-sums', facts + [H], kind='vacuity'))
     if sel.having is not None:
         ctx.add(core.satisfiable(P + 'canary/no-user-is-ever-left-out', facts + [z3.Not(H)], kind='canary'))
@@ -575,7 +599,15 @@ def query_obligations(ctx, fn):
 
 def native_witness(ctx):
     script = open(os.path.join(os.path.dirname(__file__), 'native', 'c11_replay.py')).read()
-    return core.run_native(script, {'size': 'small'}, timeout=600)
+    r = core.run_native(script, {'size': 'small'}, timeout=600)
+    if isinstance(r, dict) and r.get('confirmed'):
+        return r
+    # (wave 4) the surroundings: the query on token rows with negative deltas, two overlapping computations on one scheduler
+    for name in ('c11_query_replay.py', 'c11_overlap_replay.py'):
+        q = _native(name)
+        if isinstance(q, dict) and q.get('confirmed'):
+            return q
+    return r
 
 
 def build(ctx):
